@@ -894,7 +894,21 @@ def r17_merged_partition_reexamined(ctx):
         ctx.undecided("update_partitions: the overlap test of the merge loop was not found", fn, loop)
         return
     test = test[0]
-    cp = cmp_parts(test.get("c"))
+    # the overlap test in either polarity: `ub >= lb`, `!(ub < lb)`, ...
+    cp = None
+    for x in walk(test.get("c")):
+        q = cmp_parts(x) if isinstance(x, dict) and x.get("k") in ("call", "bin") else None
+        if q and any(is_call(y, name="ub") for y in walk(q[1])) and any(is_call(y, name="lb") for y in walk(q[2])):
+            cp = q
+            break
+        if q and any(is_call(y, name="lb") for y in walk(q[1])) and any(is_call(y, name="ub") for y in walk(q[2])):
+            cp = (q[0], q[2], q[1])
+            break
+    if cp is None:
+        ctx.undecided("update_partitions: the overlap comparison was not found in `%s`" % src(test.get("c"))[:50], fn, test)
+        return
+    # which branch of the test is the merge branch
+    merge_in_then = any(is_call(c, name="erase") for c in walk(test.get("t")))
 
     def it_of(e):
         for x in walk(e):
@@ -903,7 +917,7 @@ def r17_merged_partition_reexamined(ctx):
         return None
     left, right = it_of(cp[1]), it_of(cp[2])       # it->ub() >= next_it->lb()
     prefix = stmts[:stmts.index(test)]
-    then = test.get("t")
+    then = test.get("t") if merge_in_then else test.get("e")
     then_stmts = then.get("b", []) if isinstance(then, dict) and then.get("k") == "seq" else [then]
     incr = [loop["n"]] if loop.get("n") is not None else []
     cond = [loop["c"]] if loop.get("c") is not None else []
